@@ -129,6 +129,24 @@ func runC05(c *core.Ctx) {
 	c.Section("big-values", c.N(400, 8000), func(cs *core.Case) {
 		c05Check(cs, gen.BigPacket(cs.R), "big")
 	})
+	// packets obtained by decoding accepted (also non-canonical) datagrams: their slices alias the
+	// input, their lists have the lengths the wire dictated
+	c.Section("decoded", c.N(150000, 6000000), func(cs *core.Case) {
+		in := corpusDatagram(cs.R)
+		if len(in) == 0 {
+			return
+		}
+		ps, err, pan := gUnmarshal(in)
+		if pan != "" || err != nil {
+			return
+		}
+		for _, p := range ps {
+			if t, ok := p.(*rtcp.TransportLayerCC); ok && !twccHeaderConsistent(t) {
+				continue // the statement's precondition for caller-supplied headers
+			}
+			c05Check(cs, p, "decoded")
+		}
+	})
 	// every residue mod 4 of every variable part, systematically
 	c.Section("residues", c.N(4000, 40000), func(cs *core.Case) {
 		r := cs.R
